@@ -128,3 +128,39 @@ Theorem C03_one_refused_chunk_refuses_the_batch : forall (K : Fld) ofN mode ns n
   In Err (chunk_results K ofN mode (chunks_of (length ms) MAX_BATCH ms) orc) -> verify_batch K ofN mode ns np nt ms orc = Err.
 Proof. exact verify_batch_err_if_chunk_err. Qed.
 Print Assumptions C03_one_refused_chunk_refuses_the_batch.
+
+(** "ONLY IF", THE DETERMINISTIC CASE, on the executed model: every member of a chunk but one is a statement / proof pair made by
+    the code-shaped prover for a valid witness ([hmember] of [hp_ok] parameters, any mixture of aggregation factors), the remaining
+    member is ARBITRARY — any proof bytes, any statement over the same generators.  If [verify_chunk] accepts the chunk in a
+    verifying mode, the back end having found the identity, and the weight drawn for the unknown member is non-zero
+    (C08_weights_nonzero), then the TEXTBOOK verifier accepts the unknown member.  Honest companions cannot carry an invalid
+    proof through a batch; no random-oracle step is involved because one residual only is unknown. *)
+From BP Require Import Model.Codec Proofs.HonestTopP Proofs.HonestBatchTopP Proofs.OneUnknownP.
+Local Close Scope N_scope.
+Theorem C03_one_unknown_member_among_honest : forall (K : Fld), FldOk K -> forall (M : Mod K), ModOk K M ->
+  forall (ofN : N -> K) (toN : K -> N), (forall x, ofN (toN x) = x) ->
+  forall (enc : M -> N) (dec : N -> M), (forall p, dec (enc p) = p) ->
+  forall (g : gens K M) bits cap,
+  1 <= bits -> length (g_G g) = bits * cap -> length (g_Hv g) = bits * cap -> 1 <= length (g_Gb g) <= 6 ->
+  (2 * N.of_nat bits * N.of_nat cap < 2 ^ 64)%N -> enc (g_H g) <> 0%N -> Forall (fun q => enc q <> 0%N) (g_Gb g) ->
+  forall mode (pre post : list (hparams K)) (mb : member K) ws masks sc mx,
+  let ms := map (hmember K M toN enc g bits cap) pre ++ mb :: map (hmember K M toN enc g bits cap) post in
+  let w := nth (length pre) ws (f0 K) in
+  mode <> RecoverOnly -> w <> f0 K ->
+  Forall (hp_ok K M enc g bits cap) pre -> Forall (hp_ok K M enc g bits cap) post ->
+  member_wf K M (g_Gb g) mb ->
+  verify_chunk K ofN mode ms ws true = (Ok masks, Some sc) ->
+  (exists mi, consistency K ms = Some (mx, mi)) -> mx <= bits * cap ->
+  vadd M (msm (fst sc) (interleaveM K M (g_G g) (g_Hv g)))
+         (msm (snd sc) (flat_map (dyn_of K M) (map (pts_of K M dec) ms) ++ g_Gb g ++ [g_H g])) = v0 M ->
+  let pr := mb_proof K mb in
+  let Nn := length (mb_promises K mb) * mb_bits K mb in
+  spec_accepts K M (mb_bits K mb) (g_H g) (g_Gb g) (firstn Nn (g_G g)) (firstn Nn (g_Hv g)) (map dec (mb_Venc K mb)) (mb_promises K mb)
+    (mkRproof K M (dec (p_a pr)) (combine (map dec (p_li pr)) (map dec (p_ri pr))) (dec (p_a1 pr)) (dec (p_b pr))
+              (ofN (p_r1 pr)) (ofN (p_s1 pr)) (map ofN (p_d1 pr)))
+    (c_y (mb_ch K mb)) (c_z (mb_ch K mb)) (c_es (mb_ch K mb)) (c_e (mb_ch K mb)).
+Proof.
+  intros K Kok M Mok ofN toN OT enc dec DE g bits cap Hb LG LH HT Hpad EH EGb.
+  exact (one_unknown_textbook_accepts K Kok M Mok ofN toN OT enc dec DE g bits cap Hb LG LH HT Hpad EH EGb).
+Qed.
+Print Assumptions C03_one_unknown_member_among_honest.
